@@ -109,8 +109,15 @@ def gen_scenario(rng: random.Random) -> Dict[str, Any]:
         eff = max(float(o["spec"].other_ttl), 1125.0) * 1000.0
         last = max(x["t"] for x in ops)
         nb += 1
-        ops.append({"t": last + 2000.0 + eff * rng.choice([0.2, 0.45, 0.55, 0.7, 0.8, 0.97, 1.05]), "op": "browse", "host": rng.randrange(nh),
-                    "type": o["spec"].type, "bid": nb + 30, "late": True})
+        when = last + 2000.0 + eff * rng.choice([0.2, 0.45, 0.55, 0.7, 0.8, 0.97, 1.05])
+        if rng.random() < 0.3:
+            # ... or inside the up to 10 s between the expiry of the pointer heard in the last announcement of that service and
+            # the next run of the periodic purge (third announcement: +800 ms after a registration starts, +450 ms after an update)
+            lasts = [x for x in ops if x["op"] in ("register", "update") and x["svc"] == o["svc"]]
+            lo = max(lasts, key=lambda x: x["t"])
+            eff = max(float(lo["spec"].other_ttl), 1125.0) * 1000.0
+            when = max(last + 100.0, lo["t"] + (800.0 if lo["op"] == "register" else 450.0) + eff + rng.uniform(150.0, 9500.0))
+        ops.append({"t": when, "op": "browse", "host": rng.randrange(nh), "type": o["spec"].type, "bid": nb + 30, "late": True})
     ops.sort(key=lambda o: o["t"])
     # long horizon: a second evaluation after every pointer learned so far would have expired unless it was refreshed
     return {"hosts": hosts, "ops": ops, "dup_p": rng.choice([0.0, 0.0, 0.1, 0.2]), "max_delay": 100.0, "long_horizon": rng.random() < (0.5 if flap else 0.12)}
